@@ -91,6 +91,28 @@ def big_cancel(rng, k):
     return scn.line("scn", "g%d" % k, s, extra="nt=1 expect=2:ok,3:ok")
 
 
+def oversize_cancelled(rng, k, lim):
+    """messages refused for their size whose sender's context ends at the same moment (a long method name makes even the
+    cancellation frame of the call exceed the limit): nothing may reach the wire for them and the connection stays usable"""
+    s = [scn.notify(1, pad=3)]
+    exp = ["1:ok"]
+    c = 2
+    for _ in range(4 + rng.below(5)):
+        over = rng.choice([-12, -1, 0, 1, 2, 16, 300])
+        name = b"p." + b"m" * max(1, lim + over - 8)
+        to = rng.choice([0, 0, 1])
+        s.append(scn.call(c, pad=rng.below(4), meth=name, nowait=True, timeout=to))
+        if to == 0:
+            s.append(scn.cancel(c, nowait=True))
+        s.append("await/c%d" % c)
+        exp.append("%d:toobig+ctx" % c)
+        c += 1
+    s.append(scn.notify(c, pad=1)); exp.append("%d:ok" % c); c += 1
+    s += [scn.call(c, pad=2), "replyto/%d" % c, "await/c%d" % c]; exp.append("%d:ok" % c)
+    s.append("settle")
+    return scn.line("scn", "o%d" % k, s, max_=lim, extra="nt=1 family=oversize-cancelled expect=%s" % ",".join(exp))
+
+
 def explore(ctx):
     rng, tier = ctx["rng"], ctx["tier"]
     if ctx.get("replay"):
@@ -103,6 +125,8 @@ def explore(ctx):
                 lines += boundary(rng, i, lim, shape)
         for k in range({"quick": 12, "thorough": 150, "search": 40}[tier]):
             lines.append(big_cancel(rng, k))
+        for k in range({"quick": 20, "thorough": 300, "search": 60}[tier]):
+            lines.append(oversize_cancelled(rng, k, rng.choice([100, 200, 300, 1024])))
         n = {"quick": 250, "thorough": 5000, "search": 1000}[tier]
         big = {"quick": 4, "thorough": 16, "search": 8}[tier]
         for k in range(n):
